@@ -118,6 +118,12 @@ func cmdWitness(args []string) {
 				skipLine(s.PC, ""), i, b.Mod, i, skipLine(s.P1, "\t"), skipLine(s.P2, "\t"))
 			continue
 		}
+		if s.Kind == "ctxregexfn" {
+			// function format: package-level functions, so the names carry the scenario number
+			fmt.Fprintf(&src, "\n// goverter:converter\n// goverter:output:format function\n%s// goverter:output:file ../gen/c%d.go\n// goverter:output:package %s/gen\ntype C%d interface {\n%s\t// goverter:map V | Fn\n\tM1x%d(source S4, kx int) T4\n%s\t// goverter:map V | Fn\n\tM2x%d(source S5, kx int) T5\n}\n",
+				regexLine(s.PC, ""), i, b.Mod, i, regexLine(s.P1, "\t"), i, regexLine(s.P2, "\t"), i)
+			continue
+		}
 		if s.Kind == "ctxregex" {
 			fmt.Fprintf(&src, "\n// goverter:converter\n%s// goverter:output:file ../gen/c%d.go\n// goverter:output:package %s/gen\ntype C%d interface {\n%s\t// goverter:map V | Fn\n\tM1(source S4, kx int) T4\n%s\t// goverter:map V | Fn\n\tM2(source S5, kx int) T5\n}\n",
 				regexLine(s.PC, ""), i, b.Mod, i, regexLine(s.P1, "\t"), regexLine(s.P2, "\t"))
@@ -170,7 +176,7 @@ func cmdWitness(args []string) {
 				sl := func(n int) any { return map[string]any{"k": "s", "a": "i", "es": []any{map[string]any{"k": "b", "tok": fmt.Sprintf("#%d", n)}}} }
 				arg := stv(stv(sl(1)), stv(sl(2)))
 				w.Write(map[string]any{"ins": []any{}, "calls": []any{map[string]any{"args": []any{arg}, "dump": []int{}}}})
-			} else if o.Gen == "ok" && scens[i].Kind == "ctxregex" {
+			} else if o.Gen == "ok" && (scens[i].Kind == "ctxregex" || scens[i].Kind == "ctxregexfn") {
 				if m == 1 {
 					b.WriteOutputs(i, o.Files) // compiled with the rest of the gen package; not executed
 				}
